@@ -163,7 +163,7 @@ class Ctx:
                         lines.append("KNOWN-FINDING: property=%s %s [%s]" % (self.pid, k["what"], k["id"]))
                     continue
             nviol += 1
-            path = os.path.join(self.out, "replay_%s.json" % re.sub(r"[^A-Za-z0-9_.-]", "_", ob.name)[:120])
+            path = os.path.join(self.out, "replay_%s_%s.json" % (re.sub(r"[^A-Za-z0-9_.-]", "_", ob.name)[:110], sha256(ob.name)[:6]))
             rec = dict(property=self.pid, obligation=ob.name, unit=ob.unit, backend=ob.backend,
                        function=ob.function, verifier_output=ob.detail, counterexample=ob.cex,
                        replay=rep, reproduced_on_real_code=reproduced)
